@@ -35,12 +35,12 @@ from vf import core
 from vf.coqlit import cbool, clist, cnat, cstr
 
 THEOREMS = [
-    "C17_generated_shapes", "C17_generated_defaults", "C17_closed_means_durable_partial", "C17_closed_means_durable_full_refuted",
-    "C17_sqlite_order_is_permutation", "C17_refuted_stream_empty_close", "C17_refuted_avro_flush_before_write",
-    "C17_empty_output_valid", "C17_empty_output_valid_stream_flush_close", "C17_split",
-    "C17_split_bare_close_partial", "C17_refuted_split_bare_close", "C17_split_part_names_distinct",
-    "C17_note_split_suffix_overflow", "C17_rotation_partial", "C17_rotation_distinct_stamps",
-    "C17_refuted_rotation_same_second",
+    "C17_generated_shapes", "C17_generated_defaults", "C17_closed_means_durable", "C17_closed_means_durable_partial",
+    "C17_closed_means_durable_full_refuted", "C17_sqlite_order_is_permutation", "C17_refuted_stream_empty_close",
+    "C17_refuted_avro_flush_before_write_if_reverted", "C17_empty_output_valid",
+    "C17_empty_output_valid_stream_flush_close", "C17_split", "C17_split_bare_close_partial",
+    "C17_refuted_split_bare_close", "C17_split_part_names_distinct", "C17_note_split_suffix_overflow",
+    "C17_rotation", "C17_rotated_names_distinct", "C17_refuted_rotation_same_second_if_reverted",
 ]
 
 UTC = _dt.timezone.utc
@@ -453,28 +453,6 @@ class Case:
 OPS = ["WA", "WB", "F", "C", "X"]
 
 
-def avro_bad(h):
-    """mirror of Writers_proofs.avro_bad: flush before the first write, that write, then another write of the same
-    descriptor before the writer is closed"""
-    if not h or h[0] != "F":
-        return False
-    i = 1
-    while i < len(h) and h[i] == "F":
-        i += 1
-    if i >= len(h) or h[i][0] != "W":
-        return False
-    d = h[i][1]
-    for op in h[i + 1:]:
-        if op == "F":
-            continue
-        if op[0] == "W":
-            if op[1] == d:
-                return True
-            continue
-        return False
-    return False
-
-
 def sqlite_order(recs):
     order = []
     for d, _ in recs:
@@ -541,10 +519,6 @@ def history_case(tname, hist, workdir):
             klass = "bare-close-first"
             if obs2["indep"] == [] and all(o == "Ok" for o in outs[:1]):
                 symptom = "zero-byte-stream"
-        if family == "avro" and avro_bad(list(hist)):
-            klass = "flush-before-first-write"
-            if obs2["indep"] and obs2["indep"][0] == "KEmpty" and len(obs2["indep"][1]) > 0:
-                symptom = "data-under-empty-schema"
         kcase = dict(adapter=family, klass=klass, symptom=symptom)
     terms = []
     has_reader = ruri is not None
@@ -989,10 +963,9 @@ def rotation_case(tkind, ops, clock_mode, pre_kind, workdir, archive=False):
         problems.insert(0, "records %s are in no file any more" % sorted(lost))
     kcase = None
     if problems:
-        hit = rotation_collision(ops, res["pre"], res["stamps"], res["rel_of"])
-        only_lost = len(problems) == 1 and bool(lost)
-        kcase = dict(writer="path-template", klass="rotation-target-exists" if hit else None,
-                     symptom="rotated-file-replaced" if only_lost else None)
+        # (no known finding for the path-template writer: a rename never replaces a file)
+        kcase = dict(writer="path-template", klass=None, symptom=None,
+                     rename_target_existed=rotation_collision(ops, res["pre"], res["stamps"], res["rel_of"]))
     terms = []
     if not archive or True:
         # model: paths relative to the directory; pre-existing files hold one record under descriptor A
